@@ -219,3 +219,279 @@ Lemma inv_replay tr st : replay init_state tr = Some st -> inv tr st.
 Proof. intros R. apply (inv_replay_gen [] init_state tr st inv_init R). Qed.
 
 End SearchFacts.
+
+(* ------------------------------------------------------------------ *)
+(* the scan of the futures list *)
+Lemma remove_nth_perm {A} (l : list A) i x :
+  nth_error l i = Some x -> Permutation l (x :: remove_nth i l).
+Proof.
+  revert i. induction l as [|y l IH]; intros [|i] H; cbn in *; try discriminate.
+  - injection H as ->. apply Permutation_refl.
+  - apply IH in H. eapply Permutation_trans; [apply perm_skip, H|apply perm_swap].
+Qed.
+
+Lemma pick_perm flags futs x rest : pick flags futs = Some (x, rest) -> Permutation futs (x :: rest).
+Proof.
+  unfold pick. destruct (first_true _) as [i|]; [|discriminate].
+  destruct (nth_error futs i) as [y|] eqn:E; [|discriminate].
+  intros H. injection H as <- <-. apply remove_nth_perm, E.
+Qed.
+
+Lemma first_true_spec l i : first_true l = Some i ->
+  nth_error l i = Some true /\ forall j, j < i -> nth_error l j = Some false.
+Proof.
+  revert i. induction l as [|b l IH]; intros i H; cbn in H; [discriminate|].
+  destruct b.
+  - injection H as <-. split; [reflexivity|]. intros j Hj. lia.
+  - destruct (first_true l) as [i'|]; [|discriminate]. cbn in H. injection H as <-.
+    destruct (IH i' eq_refl) as [H1 H2]. split; [exact H1|].
+    intros [|j] Hj; [reflexivity|]. cbn. apply H2. lia.
+Qed.
+
+Lemma first_true_none l : first_true l = None -> forall b, In b l -> b = false.
+Proof.
+  induction l as [|b l IH]; cbn; intros H c Hc; [contradiction|].
+  destruct b; [discriminate|]. destruct (first_true l); [discriminate|].
+  destruct Hc as [<-|Hc]; [reflexivity|]. apply IH; [reflexivity|exact Hc].
+Qed.
+
+Lemma nth_error_firstn_lt {A} (l : list A) n i : i < n -> nth_error (firstn n l) i = nth_error l i.
+Proof.
+  revert n i. induction l as [|x l IH]; intros [|n] [|i] H; cbn; try reflexivity; try lia.
+  apply IH. lia.
+Qed.
+
+(* the position taken is the FIRST done future, and it is in range *)
+Lemma pick_first flags futs x rest : pick flags futs = Some (x, rest) ->
+  exists i, i < length futs /\ nth_error futs i = Some x /\ rest = remove_nth i futs /\
+            nth_error flags i = Some true /\ forall j, j < i -> nth_error flags j = Some false.
+Proof.
+  unfold pick. destruct (first_true _) as [i|] eqn:F; [|discriminate].
+  destruct (nth_error futs i) as [y|] eqn:E; [|discriminate].
+  intros H. injection H as <- <-. exists i.
+  assert (Hi : i < length futs) by (apply nth_error_Some; congruence).
+  destruct (first_true_spec _ _ F) as [H1 H2].
+  split; [exact Hi|]. split; [exact E|]. split; [reflexivity|]. split.
+  - rewrite nth_error_firstn_lt in H1 by exact Hi. exact H1.
+  - intros j Hj. specialize (H2 j Hj). rewrite nth_error_firstn_lt in H2 by lia. exact H2.
+Qed.
+
+(* a scheduler is fair when it never leaves a non-empty set of futures without a done one *)
+Definition fair (sched : nat -> list nat -> list bool) : Prop :=
+  forall step ids, ids <> [] -> exists i, i < length ids /\ nth_error (sched step ids) i = Some true.
+
+
+Lemma first_true_some l i : nth_error l i = Some true -> first_true l <> None.
+Proof.
+  revert i. induction l as [|b l IH]; intros [|i] H; cbn in *; try discriminate.
+  - injection H as ->. discriminate.
+  - destruct b; [discriminate|]. specialize (IH _ H). destruct (first_true l); [discriminate|contradiction].
+Qed.
+
+Lemma pick_fair sched step (futs : list fut) : fair sched -> futs <> [] ->
+  pick (sched step (map fst futs)) futs <> None.
+Proof.
+  intros Hf Hne. unfold pick.
+  destruct (Hf step (map fst futs)) as (i & Hi & Ht).
+  { destruct futs; [contradiction|discriminate]. }
+  rewrite map_length in Hi.
+  destruct (first_true (firstn (length futs) (sched step (map fst futs)))) as [j|] eqn:F.
+  - destruct (first_true_spec _ _ F) as [H1 _].
+    assert (Hj : j < length futs).
+    { assert (nth_error (firstn (length futs) (sched step (map fst futs))) j <> None) by congruence.
+      apply nth_error_Some in H. rewrite firstn_length in H. lia. }
+    destruct (nth_error futs j) eqn:E; [discriminate|]. apply nth_error_None in E. lia.
+  - exfalso. eapply first_true_some; [|exact F]. rewrite nth_error_firstn_lt by exact Hi. exact Ht.
+Qed.
+
+(* ------------------------------------------------------------------ *)
+Section RunFacts.
+Variable T : Type.
+Variable mts : option nat.
+Variable get_setting : nat -> list (setting * pyf) -> setting.
+Variable run : nat -> setting -> option (trial T).
+Variable sm : stopmode.
+Notation hstate := (hstate T).
+Notation entry := (entry T).
+Notation replay := (replay T mts).
+Notation do_report := (do_report T mts run sm).
+Notation serial := (serial T mts get_setting run sm).
+
+Definition ids (tr : list entry) : list nat := map e_id tr.
+
+(* an entry carries the result of running its own setting under its own submission number *)
+Definition paired (e : entry) : Prop := run (e_id e) (e_setting e) = Some (e_trial e).
+
+Lemma do_report_inv st id s step :
+  match do_report st id s step with
+  | SCrash => True
+  | SCont st2 e | SStop st2 e =>
+      e_id e = id /\ e_setting e = s /\ paired e /\ replay st [e] = Some st2
+  end.
+Proof.
+  unfold do_report. destruct (run id s) as [tr|] eqn:R; [|exact I].
+  destruct (report T mts st s tr) as [st1|] eqn:E; [|exact I].
+  destruct (should_stop T sm (assess T st1 tr) step); cbn; unfold paired, e_id, e_setting, e_trial; cbn;
+    rewrite E; repeat split; assumption.
+Qed.
+
+(* P: any property of (submission number, setting) pairs that every answer of the library has *)
+Section WithP.
+Variable P : nat -> setting -> Prop.
+Hypothesis P_ask : forall k h, P k (get_setting k h).
+
+Definition entryP (e : entry) : Prop := P (e_id e) (e_setting e).
+
+Lemma serial_spec n : forall k step st trace status st' trace' k',
+  serial n k step st trace = (status, st', trace', k') ->
+  exists new, trace' = trace ++ new /\ replay st new = Some st' /\
+    k <= k' <= k + n /\ length new <= k' - k /\ ids new = seq k (length new) /\
+    Forall paired new /\ Forall entryP new /\
+    (status = Done -> k' = k + n /\ length new = n) /\
+    (status = Stopped \/ status = Done -> length new = k' - k).
+Proof.
+  induction n as [|n IH]; intros k step st trace status st' trace' k' H; cbn in H.
+  - injection H as <- <- <- <-. exists []. rewrite app_nil_r. cbn.
+    repeat split; try constructor; try lia; try reflexivity.
+  - pose proof (do_report_inv st k (get_setting k (h_optlib st)) step) as D.
+    destruct (do_report st k (get_setting k (h_optlib st)) step) as [st2 e|st2 e|].
+    + destruct D as (Hid & Hs & Hp & Hr).
+      apply IH in H. destruct H as (new & -> & Hrep & Hk & Hlen & Hids & Hpair & HP & Hdone & Hstop).
+      exists (e :: new). rewrite <- app_assoc. split; [reflexivity|]. split.
+      { cbn in Hr |- *. destruct (report T mts st (e_setting e) (e_trial e)); [|discriminate].
+        injection Hr as ->. exact Hrep. }
+      split; [lia|]. split; [cbn [length]; lia|]. split; [cbn; rewrite Hid; f_equal; exact Hids|].
+      split; [constructor; assumption|]. split.
+      { constructor; [|exact HP]. unfold entryP. rewrite Hid, Hs. apply P_ask. }
+      split; [intros E; destruct (Hdone E); cbn [length]; lia|]. intros E. specialize (Hstop E). cbn [length]. lia.
+    + destruct D as (Hid & Hs & Hp & Hr). injection H as <- <- <- <-.
+      exists [e]. split; [reflexivity|]. split; [exact Hr|]. split; [lia|]. split; [cbn [length]; lia|].
+      split; [cbn; rewrite Hid; reflexivity|]. split; [repeat constructor; exact Hp|]. split.
+      { repeat constructor. unfold entryP. rewrite Hid, Hs. apply P_ask. }
+      split; [discriminate|]. intros _. cbn [length]. lia.
+    + injection H as <- <- <- <-. exists []. rewrite app_nil_r. cbn.
+      repeat split; try constructor; try lia; try discriminate. intros [E|E]; discriminate.
+Qed.
+
+(* ---- parallel ---- *)
+Variable pre_dispatch : nat.
+Variable sched : nat -> list nat -> list bool.
+Notation drain := (drain T mts run sm sched).
+Notation par := (par T mts get_setting run sm pre_dispatch sched).
+
+Definition futP (f : fut) : Prop := P (fst f) (snd f).
+
+Lemma drain_spec fuel : forall step st futs trace k status st' trace' k',
+  length futs <= fuel -> Forall futP futs ->
+  drain fuel step st futs trace k = (status, st', trace', k') ->
+  exists new rest, trace' = trace ++ new /\ replay st new = Some st' /\ k' = k /\
+    Permutation (map (fun e => (e_id e, e_setting e)) new ++ rest) futs /\
+    Forall paired new /\
+    (status = Done -> rest = []) /\
+    (fair sched -> status <> Stuck).
+Proof.
+  induction fuel as [|fuel IH]; intros step st futs trace k status st' trace' k' Hlen HP H.
+  - destruct futs; [|cbn in Hlen; lia]. cbn in H. injection H as <- <- <- <-.
+    exists [], []. rewrite app_nil_r. cbn. repeat split; try constructor; congruence.
+  - destruct futs as [|f0 futs0].
+    { cbn in H. injection H as <- <- <- <-.
+      exists [], []. rewrite app_nil_r. cbn. repeat split; try constructor; congruence. }
+    cbn [drain] in H. set (futs := f0 :: futs0) in *.
+    destruct (pick (sched step (map fst futs)) futs) as [[[id s] rest0]|] eqn:Pk.
+    + pose proof (pick_perm _ _ _ _ Pk) as Hperm.
+      pose proof (do_report_inv st id s step) as D.
+      destruct (do_report st id s step) as [st2 e|st2 e|].
+      * destruct D as (Hid & Hs & Hp & Hr).
+        apply IH in H.
+        2:{ apply Permutation_length in Hperm. cbn [length] in Hperm. lia. }
+        2:{ eapply Forall_forall. intros x Hx. eapply Forall_forall in HP; [exact HP|].
+            eapply Permutation_in; [apply Permutation_sym, Hperm|right; exact Hx]. }
+        destruct H as (new & rest & -> & Hrep & -> & Hpm & Hpair & Hdone & Hfair).
+        exists (e :: new), rest. rewrite <- app_assoc. split; [reflexivity|]. split.
+        { cbn in Hr |- *. destruct (report T mts st (e_setting e) (e_trial e)); [|discriminate].
+          injection Hr as ->. exact Hrep. }
+        split; [reflexivity|]. split.
+        { cbn. rewrite Hid, Hs. eapply Permutation_trans; [apply perm_skip, Hpm|apply Permutation_sym, Hperm]. }
+        split; [constructor; assumption|]. split; assumption.
+      * destruct D as (Hid & Hs & Hp & Hr). injection H as <- <- <- <-.
+        exists [e], rest0. split; [reflexivity|]. split; [exact Hr|]. split; [reflexivity|]. split.
+        { cbn. rewrite Hid, Hs. apply Permutation_sym, Hperm. }
+        split; [repeat constructor; exact Hp|]. split; [discriminate|]. intros _; discriminate.
+      * injection H as <- <- <- <-. exists [], futs. rewrite app_nil_r. cbn.
+        repeat split; try constructor; try apply Permutation_refl; try discriminate.
+    + injection H as <- <- <- <-. exists [], futs. rewrite app_nil_r. cbn.
+      repeat split; try constructor; try apply Permutation_refl; try discriminate.
+      intros Hf _. eapply pick_fair; [exact Hf| |exact Pk]. unfold futs. discriminate.
+Qed.
+
+Lemma par_spec n : forall k step st futs trace status st' trace' k',
+  Forall futP futs ->
+  par n k step st futs trace = (status, st', trace', k') ->
+  exists new rest asked, trace' = trace ++ new /\ replay st new = Some st' /\
+    k <= k' <= k + n /\ map fst asked = seq k (k' - k) /\ Forall futP asked /\
+    Permutation (map (fun e => (e_id e, e_setting e)) new ++ rest) (futs ++ asked) /\
+    Forall paired new /\
+    (status = Done -> rest = [] /\ k' = k + n) /\
+    (fair sched -> status <> Stuck).
+Proof.
+  induction n as [|n IH]; intros k step st futs trace status st' trace' k' HP H; cbn [par] in H.
+  - apply drain_spec in H; [|lia|exact HP].
+    destruct H as (new & rest & -> & Hrep & -> & Hpm & Hpair & Hdone & Hfair).
+    exists new, rest, []. rewrite app_nil_r, Nat.sub_diag. cbn.
+    repeat split; try assumption; try lia; try constructor.
+    + apply Hdone, H.
+  - set (s := get_setting k (h_optlib st)) in *.
+    assert (HP' : Forall futP (futs ++ [(k, s)])).
+    { apply Forall_app. split; [exact HP|]. repeat constructor. unfold futP. cbn. apply P_ask. }
+    destruct (Nat.leb pre_dispatch (length (futs ++ [(k, s)]))).
+    + destruct (pick (sched step (map fst (futs ++ [(k, s)]))) (futs ++ [(k, s)])) as [[[id s'] rest0]|] eqn:Pk.
+      * pose proof (pick_perm _ _ _ _ Pk) as Hperm.
+        pose proof (do_report_inv st id s' step) as D.
+        destruct (do_report st id s' step) as [st2 e|st2 e|].
+        -- destruct D as (Hid & Hs & Hp & Hr).
+           apply IH in H.
+           2:{ eapply Forall_forall. intros x Hx. eapply Forall_forall in HP'; [exact HP'|].
+               eapply Permutation_in; [apply Permutation_sym, Hperm|right; exact Hx]. }
+           destruct H as (new & rest & asked & -> & Hrep & Hk & Hasked & HPa & Hpm & Hpair & Hdone & Hfair).
+           exists (e :: new), rest, ((k, s) :: asked). rewrite <- app_assoc. split; [reflexivity|]. split.
+           { cbn in Hr |- *. destruct (report T mts st (e_setting e) (e_trial e)); [|discriminate].
+             injection Hr as ->. exact Hrep. }
+           split; [lia|]. split.
+           { cbn [map fst]. replace (k' - k) with (S (k' - S k)) by lia. cbn. f_equal. exact Hasked. }
+           split; [constructor; [unfold futP; cbn; apply P_ask|exact HPa]|]. split.
+           { cbn [map app]. rewrite Hid, Hs.
+             eapply Permutation_trans; [apply perm_skip, Hpm|].
+             change ((id, s') :: rest0 ++ asked) with (((id, s') :: rest0) ++ asked).
+             eapply Permutation_trans; [apply Permutation_app_tail, Permutation_sym, Hperm|].
+             rewrite <- app_assoc. apply Permutation_refl. }
+           split; [constructor; assumption|]. split; [|exact Hfair].
+           intros E. destruct (Hdone E). split; [assumption|lia].
+        -- destruct D as (Hid & Hs & Hp & Hr). injection H as <- <- <- <-.
+           exists [e], rest0, [(k, s)]. split; [reflexivity|]. split; [exact Hr|]. split; [lia|]. split.
+           { replace (S k - k) with 1 by lia. reflexivity. }
+           split; [repeat constructor; unfold futP; cbn; apply P_ask|]. split.
+           { cbn. rewrite Hid, Hs. apply Permutation_sym, Hperm. }
+           split; [repeat constructor; exact Hp|]. split; [discriminate|]. intros _; discriminate.
+        -- injection H as <- <- <- <-. exists [], (futs ++ [(k, s)]), [(k, s)]. rewrite app_nil_r.
+           split; [reflexivity|]. split; [reflexivity|]. split; [lia|]. split.
+           { replace (S k - k) with 1 by lia. reflexivity. }
+           split; [repeat constructor; unfold futP; cbn; apply P_ask|]. split; [apply Permutation_refl|].
+           split; [constructor|]. split; [discriminate|]. intros _; discriminate.
+      * injection H as <- <- <- <-. exists [], (futs ++ [(k, s)]), [(k, s)]. rewrite app_nil_r.
+        split; [reflexivity|]. split; [reflexivity|]. split; [lia|]. split.
+        { replace (S k - k) with 1 by lia. reflexivity. }
+        split; [repeat constructor; unfold futP; cbn; apply P_ask|]. split; [apply Permutation_refl|].
+        split; [constructor|]. split; [discriminate|].
+        intros Hf _. eapply pick_fair; [exact Hf| |exact Pk]. destruct futs; discriminate.
+    + apply IH in H; [|exact HP'].
+      destruct H as (new & rest & asked & -> & Hrep & Hk & Hasked & HPa & Hpm & Hpair & Hdone & Hfair).
+      exists new, rest, ((k, s) :: asked). split; [reflexivity|]. split; [exact Hrep|]. split; [lia|]. split.
+      { cbn [map fst]. replace (k' - k) with (S (k' - S k)) by lia. cbn. f_equal. exact Hasked. }
+      split; [constructor; [unfold futP; cbn; apply P_ask|exact HPa]|]. split.
+      { eapply Permutation_trans; [exact Hpm|]. rewrite <- app_assoc. apply Permutation_refl. }
+      split; [exact Hpair|]. split; [|exact Hfair].
+      intros E. destruct (Hdone E). split; [assumption|lia].
+Qed.
+
+End WithP.
+End RunFacts.
